@@ -26,7 +26,7 @@ FUNCTIONS = [("thejoker/prior.py", "JokerPrior.__init__"), ("thejoker/prior.py",
 ASSUMPTIONS = [
     "pymc / pytensor objects are stand-ins exposing what the validators inspect: name, unit attribute, owner.op (instance of RandomVariable or not), op._print_name",
     "astropy units by contract (symx.units): equivalence = equal dimension vectors",
-    "one parameter at a time is invalid (all others valid): combinations of several simultaneously invalid parameters are outside the bound",
+    "quick: one parameter at a time has symbolic validity (all others valid); thorough adds pairs of parameters; larger combinations are outside the bound",
     "bounds: poly_trend <= 3, n_offsets <= 2, <= 3 data sources",
 ]
 UNIT_ATTR = "__tensor_unit__"
@@ -45,6 +45,10 @@ def shapes(tier):
             if tier == "quick" and npoly == 3 and nm in ("e", "omega", "s", "v1"):
                 continue
             out.append({"what": "prior", "poly": npoly, "noff": noff, "param": nm})
+    if tier == "thorough":
+        # two parameters with symbolic validity at once
+        for a, b in (("K", "e"), ("P", "dv0_1"), ("v0", "K"), ("omega", "v1")):
+            out.append({"what": "prior", "poly": 2, "noff": 1, "param": a, "param2": b})
     for case in ("count_mismatch", "non_rvdata", "covariance", "single_with_offsets", "ok_list", "ok_dict"):
         out.append({"what": "data", "case": case})
     out.append({"what": "joker_init"})
@@ -131,93 +135,97 @@ def _run_prior(shape, res, sink):
     st.shims["pytensor"] = types.SimpleNamespace(__version__="3.3.2", tensor=pt)
     st.load("prior")
     JP = st.prior.JokerPrior
-    npoly, noff, target = shape["poly"], shape["noff"], shape["param"]
+    npoly, noff = shape["poly"], shape["noff"]
+    targets = [shape["param"]] + ([shape["param2"]] if shape.get("param2") else [])
     nonlinear = ["P", "e", "omega", "M0", "s"]
     linear = ["K"] + ["v%d" % j for j in range(npoly)]
     offs = ["dv0_%d" % k for k in range(1, noff + 1)]
     allnames = nonlinear + linear + offs
-    menu = _unit_menu(st, target)
+    menus = {t: _unit_menu(st, t) for t in targets}
 
     def harness():
-        present = core.boolean("present")
-        has_unit = core.boolean("has_unit")
-        has_owner = core.boolean("has_owner")
-        is_rv = core.boolean("is_rv")
-        unit_i = core.integer("unit_choice")
-        kind_i = core.integer("kind_choice")
-        core.assume(unit_i >= 0)
-        core.assume(unit_i < len(menu))
-        core.assume(kind_i >= 0)
-        core.assume(kind_i < len(KINDS))
-        chosen = {}
+        F = {}
+        for t in targets:
+            fl = {"present": core.boolean("present_" + t), "has_unit": core.boolean("has_unit_" + t), "has_owner": core.boolean("has_owner_" + t),
+                  "is_rv": core.boolean("is_rv_" + t), "unit_i": core.integer("unit_choice_" + t), "kind_i": core.integer("kind_choice_" + t), "chosen": {}}
+            core.assume(fl["unit_i"] >= 0)
+            core.assume(fl["unit_i"] < len(menus[t]))
+            core.assume(fl["kind_i"] >= 0)
+            core.assume(fl["kind_i"] < len(KINDS))
+            F[t] = fl
 
         def mk(name):
-            if name != target:
+            if name not in targets:
                 kind = "FixedCompanionMass" if name == "K" else "Normal"
                 un = _canonical(st, name)
                 return Par(name, {"has_unit": lambda: True, "unit": lambda un=un: un, "has_owner": lambda: True, "is_rv": lambda: True, "kind": lambda kind=kind: kind})
+            fl = F[name]
+            menu = menus[name]
 
             def unit():
-                if "unit" not in chosen:
-                    chosen["unit"] = core.fork_int(unit_i, 0, len(menu) - 1)
-                return menu[chosen["unit"]][0]
+                if "unit" not in fl["chosen"]:
+                    fl["chosen"]["unit"] = core.fork_int(fl["unit_i"], 0, len(menu) - 1)
+                return menu[fl["chosen"]["unit"]][0]
 
             def kind():
-                if "kind" not in chosen:
-                    chosen["kind"] = core.fork_int(kind_i, 0, len(KINDS) - 1)
-                return KINDS[chosen["kind"]]
-            return Par(name, {"has_unit": lambda: bool(has_unit), "unit": unit, "has_owner": lambda: bool(has_owner), "is_rv": lambda: bool(is_rv), "kind": kind})
+                if "kind" not in fl["chosen"]:
+                    fl["chosen"]["kind"] = core.fork_int(fl["kind_i"], 0, len(KINDS) - 1)
+                return KINDS[fl["chosen"]["kind"]]
+            return Par(name, {"has_unit": lambda: bool(fl["has_unit"]), "unit": unit, "has_owner": lambda: bool(fl["has_owner"]), "is_rv": lambda: bool(fl["is_rv"]), "kind": kind})
         pars = {}
         for n in nonlinear + linear:
-            if n == target and not bool(present):
+            if n in targets and not bool(F[n]["present"]):
                 continue
             pars[n] = mk(n)
-        v0_offsets = []
-        for n in offs:
-            v0_offsets.append(mk(n))      # offsets are passed as a list (always present)
-        flags = {"present": present, "has_unit": has_unit, "has_owner": has_owner, "is_rv": is_rv, "unit_i": unit_i, "kind_i": kind_i}
+        v0_offsets = [mk(n) for n in offs]      # offsets are passed as a list (always present)
         try:
             prior = JP(pars=pars, poly_trend=npoly, v0_offsets=v0_offsets, model=Model())
-            return flags, chosen, prior, None
+            return F, prior, None
         except (ValueError, TypeError) as e:
-            return flags, chosen, None, e
+            return F, None, e
 
-    ex = core.Explorer(max_paths=2000)
+    ex = core.Explorer(max_paths=20000)
     twin = False
-    is_linear = target in linear or target in offs
     for path in ex.paths(harness):
         core.Ctx.cur = path.ctx
         try:
             r, _, _ = path.check(core.SB(z3.BoolVal(False)))
             twin = twin or r == "sat"
             if path.raised is not None:
-                sink.check(path, "prior.unexpected_exception", core.SB(z3.BoolVal(False)), site="JokerPrior.__init__", describe=lambda m: {"raised": repr(path.raised)[:300], "param": target})
+                sink.check(path, "prior.unexpected_exception", core.SB(z3.BoolVal(False)), site="JokerPrior.__init__", describe=lambda m: {"raised": repr(path.raised)[:300], "param": targets})
                 continue
-            flags, chosen, prior, err = path.result
+            F, prior, err = path.result
             L = core.lift
-            # validity by the property's wording (the path fixes the truth value of every predicate that was consulted)
-            valid_unit = z3.Or([flags["unit_i"].e == i for i, (_, ok) in enumerate(menu) if ok])
-            valid_kind = z3.Or([flags["kind_i"].e == KINDS.index(k) for k in ("Normal", "FixedCompanionMass")])
-            present = L(flags["present"]) if target not in offs else z3.BoolVal(True)
-            valid = z3.And(present, L(flags["has_unit"]), valid_unit)
-            if is_linear:
-                valid = z3.And(valid, L(flags["has_owner"]), L(flags["is_rv"]), valid_kind)
+            valid_all = []
+            for t in targets:
+                fl, menu = F[t], menus[t]
+                is_linear = t in linear or t in offs
+                valid_unit = z3.Or([fl["unit_i"].e == i for i, (_, ok) in enumerate(menu) if ok])
+                valid_kind = z3.Or([fl["kind_i"].e == KINDS.index(k) for k in ("Normal", "FixedCompanionMass")])
+                present = L(fl["present"]) if t not in offs else z3.BoolVal(True)
+                v = z3.And(present, L(fl["has_unit"]), valid_unit)
+                if is_linear:
+                    v = z3.And(v, L(fl["has_owner"]), L(fl["is_rv"]), valid_kind)
+                valid_all.append(v)
+            valid = z3.And(valid_all)
             accepted = prior is not None
+            t0 = targets[0]
+            lin0 = t0 in linear or t0 in offs
 
             def desc(m):
-                d = {"param": target, "present": bool(core.model_value(m, flags["present"])), "has_unit": bool(core.model_value(m, flags["has_unit"])),
-                     "has_owner": bool(core.model_value(m, flags["has_owner"])), "is_rv": bool(core.model_value(m, flags["is_rv"])),
-                     "unit": menu[int(core.model_value(m, flags["unit_i"]))][0].name, "kind": KINDS[int(core.model_value(m, flags["kind_i"]))],
-                     "accepted": accepted, "error": repr(err)[:120]}
+                fl, menu = F[t0], menus[t0]
+                d = {"param": t0, "present": bool(core.model_value(m, fl["present"])), "has_unit": bool(core.model_value(m, fl["has_unit"])),
+                     "has_owner": bool(core.model_value(m, fl["has_owner"])), "is_rv": bool(core.model_value(m, fl["is_rv"])),
+                     "unit": menu[int(core.model_value(m, fl["unit_i"]))][0].name, "kind": KINDS[int(core.model_value(m, fl["kind_i"]))],
+                     "accepted": accepted, "error": repr(err)[:120], "also_symbolic": targets[1:]}
                 return d
-            # accepted => valid for EVERY completion of the predicates this path did not consult;  rejected => not valid for some ... :
-            # the claim is an equivalence under the path condition
+            site = "JokerPrior.__init__." + ("linear" if lin0 else "nonlinear")
             if accepted:
-                sink.check(path, "prior.accepted_only_if_valid", core.SB(valid), site="JokerPrior.__init__." + ("linear" if is_linear else "nonlinear"), describe=desc)
+                sink.check(path, "prior.accepted_only_if_valid", core.SB(valid), site=site, describe=desc)
                 order = prior.par_names == allnames
                 sink.check(path, "prior.par_names_order", core.SB(z3.BoolVal(bool(order))), site="JokerPrior.par_names", describe=desc, structural_claim=True)
             else:
-                sink.check(path, "prior.rejected_only_if_invalid", core.SB(z3.Not(valid)), site="JokerPrior.__init__." + ("linear" if is_linear else "nonlinear"), describe=desc)
+                sink.check(path, "prior.rejected_only_if_invalid", core.SB(z3.Not(valid)), site=site, describe=desc)
         finally:
             core.Ctx.cur = None
     res["twin_ok"] = twin
